@@ -112,7 +112,7 @@ static void make_valid(unsigned c[16], int p, unsigned idx) {
     if (p > 0) { c[p] = idx; c[0] = 0; c[0] = ref_eval(c); return; }
     for (unsigned v = 0; v < 2048; v++) { c[15] = v; c[0] = 0; if (ref_eval(c) == idx) { c[0] = idx; return; } }
 }
-static int POS[4] = { 15, 1, 8, 0 }, NPOS = 1;
+static int POS[4] = { 15, 0, 8, 1 }, NPOS = 1;
 
 static int more_checks(struct res *r, const char *ph, int li, const char *rep) {
     const polyseed_lang *lo_ = NULL; polyseed_data *da = NULL; int as = polyseed_decode(ph, 0, &lo_, &da); r->calls++; r->cases++;
@@ -222,10 +222,10 @@ int main(int argc, char **argv) {
         { struct res *rr = calloc(1, sizeof *rr); if (more_checks(rr, ph, li, "")) { printf("REPRODUCED %s\n", rr->v[0].msg); return 1; } }
         return 0;
     }
-    NPOS = G_thorough ? 4 : 1;
+    NPOS = G_thorough ? 4 : 2;
     out_begin();
     par_run((long)NPOS * R_NLANG * R_NW, work, NULL, r);
-    out_part("every word x every prefix length x accent subsets x NFD/NFC x continuations", r, CLS, G_thorough ? "variant placed at positions 16, 2, 9 and 1 (check word)" : "variant placed at position 16");
+    out_part("every word x every prefix length x accent subsets x NFD/NFC x continuations", r, CLS, G_thorough ? "variant placed at positions 16, 1 (check word), 9 and 2" : "variant placed at positions 16 and 1 (check word: the first token a detector sees)");
     memset(r, 0, sizeof *r); par_run((long)R_NLANG * (G_thorough ? 15 * 2048 : 15 * 256), work_mixed, NULL, r);
     out_part("mixed phrases: all 16 positions carry permitted variants in rotation", r, CLS, "");
     out_end();
